@@ -15,6 +15,7 @@ type GenCfg struct {
 	Forest        bool // allow several top-level elements / top-level text (scripted route only)
 	Numeric       bool // bias text/attribute values towards numerals
 	NoNS          bool // no namespaces at all
+	AllowBig      bool // one case in four is a large document (depth +2, fan-out +2, up to 150 elements)
 	Wide          bool // occasionally give one element 33-40 children (size thresholds)
 	Undeclare     bool // allow xmlns="" (an unprefixed, no-namespace element below a default namespace)
 	XMLEverywhere bool // emit the xml binding on every element (as the XML adapter does)
@@ -81,6 +82,11 @@ func Gen(t *rapid.T, cfg GenCfg) []Event {
 		cfg.Names = DefaultNames
 	}
 	g := &gen{t: t, cfg: cfg, max: 40}
+	if cfg.AllowBig && rapid.IntRange(0, 3).Draw(t, "bigDocument") == 0 {
+		g.cfg.MaxDepth += 2
+		g.cfg.MaxKids += 2
+		g.max = 150
+	}
 	root := &Node{Kind: Root}
 	// prolog
 	nTop := 0
